@@ -45,18 +45,21 @@ Section Value.
   Definition v3_dist2 (x1 x2 : vec3) : T := v3norm2 (v3sub x1 x2).
   Definition v3_grad (x1 x2 : vec3) : vec3 := v3scale two (v3sub x1 x2).
 
-  (* ---- unit vector ---- *)
-  Definition uv_dist2 (v1 v2 : vec3) : T := let th := nacos O (v3dot v1 v2) in th * th.
+  (* ---- unit vector (the cosine is clamped to [-1,1]; coincident vectors get a null derivative) ---- *)
+  Definition clamp1 (c : T) : T := if nltb O one c then one else if nltb O c (nneg O one) then nneg O one else c.
+  Definition uv_dist2 (v1 v2 : vec3) : T := let th := nacos O (clamp1 (v3dot v1 v2)) in th * th.
+  Definition tiny28 : T := ndiv O one (nmul O (nofZ O 100000000000000) (nofZ O 100000000000000)).
   Definition uv_grad (v1 v2 : vec3) : vec3 :=
     let c := v3dot v1 v2 in
-    v3scale (two * nacos O c * nneg O one / nsqrt O (one - c * c)) v2.
+    let s2 := one - c * c in
+    if nltb O zero c && nltb O s2 tiny28 then (zero, zero, zero)
+    else v3scale (two * nacos O c * nneg O one / nsqrt O s2) v2.
 
   (* ---- quaternion ---- *)
   Definition qdot (a b : quat) : T :=
     let '(a0, a1, a2, a3) := a in let '(b0, b1, b2, b3) := b in a0 * b0 + a1 * b1 + a2 * b2 + a3 * b3.
   Definition qneg (a : quat) : quat :=
     let '(a0, a1, a2, a3) := a in (nneg O a0, nneg O a1, nneg O a2, nneg O a3).
-  Definition clamp1 (c : T) : T := if nltb O one c then one else if nltb O c (nneg O one) then nneg O one else c.
   Variable pi : T.   (* the constant PI of the carrier *)
   Definition q_dist2 (q1 q2 : quat) : T :=
     let c := qdot q1 q2 in
@@ -97,10 +100,10 @@ Section Value.
   (* distance_vec::dist2 : pbc on -> |position_distance(x1,x2)|^2, off -> |x2 - x1|^2 *)
   Definition dv_dist2 (pbc : bool) (cell : option vec3) (x1 x2 : vec3) : T :=
     if pbc then v3norm2 (position_distance cell x1 x2) else v3norm2 (v3sub x2 x1).
-  (* distance_vec::dist2_lgrad : pbc on -> 2*position_distance(x2,x1); off -> see DVLGRAD below *)
+  (* distance_vec::dist2_lgrad : pbc on -> 2*position_distance(x2,x1); off -> 2*(x1 - x2) *)
   Definition dv_lgrad (pbc : bool) (cell : option vec3) (x1 x2 : vec3) : vec3 :=
     if pbc then v3scale two (position_distance cell x2 x1)
-    else v3scale two (v3sub x2 x1).     (* DVLGRAD: as implemented: 2*(x2 - x1) *)
+    else v3scale two (v3sub x1 x2).
 
   (* ---- interpolation: (1-l)*x1 + l*x2, normalised for unit vectors and quaternions ---- *)
   Definition sc_interp (x1 x2 l : T) : T := (one - l) * x1 + l * x2.
